@@ -27,8 +27,8 @@ pub fn model(tier: Tier, world: &str) -> Hist {
 
 pub fn run(tier: Tier) -> Outcome {
     let worlds: &[&str] = match tier {
-        Tier::Quick => &["A", "B"],
-        Tier::Thorough => &["A", "B", "C"],
+        Tier::Quick => &["A", "B", "C", "D"],
+        Tier::Thorough => &["A", "B", "C", "D"],
     };
     let depth = match tier {
         Tier::Quick => 3,
